@@ -88,9 +88,10 @@ impl Curve {
                 window.pop_front();
             }
 
-            // look at all job costs in the sliding window and keep track of total cost
+            // look at all job costs in the sliding window, in order from most recent to
+            // oldest, and keep track of the total cost of the (i + 1) most recent jobs
             let mut total_cost = Service::none();
-            for (i, k) in window.iter().enumerate() {
+            for (i, k) in window.iter().rev().enumerate() {
                 total_cost += *k;
                 if cost_of.len() <= i {
                     // we have not yet seen (i + 1) costs in a row -> first sample
